@@ -31,6 +31,30 @@ P = {
  "C15": ("exploration", "property-based testing (proptest) over chains of narrowing selections; two call chains must agree with each other and with the selection model",
          "Generated chains sel1 >= ... >= selk (k<=4) over issued SD-JWTs in both formats: direct presentation of selk vs. k nested holders; equal disclosure multisets (== model) and equal verified claims (== view).",
          "No KB-JWT in the chain (precondition).", "DESIGN.md §4 C15"),
+ "C02": ("fault_enumeration", "property-based testing (proptest) over honest presentations + systematic tamper enumeration per token; must-reject / must-accept oracle",
+         "For every generated honest presentation (both formats, three algorithms, KB requested or not) ~200 tamperings of the issuer-signed JWT are enumerated (single-character changes at sampled / all positions, re-encoded payloads, mixed parts, stripped / truncated signatures, alg rewriting incl. none and HS256-with-public-key, re-signing by attacker keys, wrong resolver keys, issuer impersonation via iss) and each must be rejected while the untouched control is accepted; the resolver's queries are logged and compared with the signed iss / header alg.",
+         "A surviving single-character change needs a signature collision (~2^-128). ring/jsonwebtoken trusted. 'Any other key' = a handful of concrete keys per family.", "DESIGN.md §4 C02"),
+ "C03": ("exploration", "property-based testing (proptest) over adversarial disclosure lists; reference view over the genuine disclosures present; permutation metamorphic relation",
+         "Generated lists assembled by hand into both serialisations from genuine subsets / permutations, altered, re-serialised, re-encoded, forged, foreign, duplicate and garbage strings. Err is always acceptable; on Ok the claims must equal the view over the genuine disclosures present (children only with all hidden ancestors); the reversed list, if accepted, must give the same claims.",
+         "A forged disclosure can only be referenced through a SHA-256 collision.", "DESIGN.md §4 C03"),
+ "C04": ("fault_enumeration", "property-based testing (proptest) + enumeration of hand-crafted KB-JWT attacks per credential; must-reject / must-accept oracle",
+         "For every generated key-bound credential the honest holder presentation must verify with the C01 view, then ~190 attacks (KB removed / altered at sampled or all positions / re-signed / alg rewritten / typ / nonce / aud / sd_hash variants / replay onto more, fewer, reordered disclosures or another credential / verifier expecting other values / one of aud, nonce) must each be rejected, in both formats.",
+         "Attacker keys: one per family; aud arrays containing the expected audience are not counted as attacks.", "DESIGN.md §4 C04"),
+ "C07": ("exploration", "property-based testing (proptest) with structured / mutational / signed-structure generators in crash-isolated children (journal + watchdog); oracle: call returns",
+         "Six labelled input classes (arbitrary text, grammar-based near-valid SD-JWTs, structural mutations of valid tokens, validly signed malformed structures incl. hand-made KB-JWTs and odd cnf, arbitrary selections and KB arguments on honest and narrowed SD-JWTs, arbitrary issuer inputs incl. nesting <= 64) are handed to every public entry point; any panic is a violation, a dead worker is a violation whose replay file is the journalled case, a watchdog hit is inconclusive.",
+         "8 MiB stack, inputs <= ~8 KB; non-termination is never reported as a violation.", "DESIGN.md §4 C07"),
+ "C08": ("exploration", "differential property-based testing (proptest) of the verifier against a from-scratch implementation of draft-07 §8.1 on harness-signed structures",
+         "The harness packs generated trees with its own encoder, applies 0-3 deviations (arity, name type, reserved / colliding names, duplicated digests within / across levels and in disclosed values, malformed _sd and placeholders, _sd_alg, list operations), signs with the test key and compares the verifier with the spec model: MustReject => Err; Claims(v) => Err or exactly v.",
+         "Literal reading where the draft is silent (Err always accepted there); nested / non-string _sd_alg and placeholder-looking element values are not asserted.", "DESIGN.md §4 C08"),
+ "C09": ("exploration", "property-based testing (proptest) over exp / nbf relative to the wall clock; accept / reject table with a 120 s dead zone",
+         "Generated credentials with exp in {absent, null, string, negative, past} (reject) or future (accept) and nbf in {absent, past} (accept) or future (reject), both formats, with and without key binding, any selection; instants computed at execution time; accepted cases are also compared with the C01 view.",
+         "Harness and verifier read the same clock microseconds apart; no instant within 120 s of a boundary.", "DESIGN.md §4 C09"),
+ "C10": ("exploration", "metamorphic property-based testing (proptest): transcoding Compact <-> JSON must not change verifier decisions, claims, or holder selections",
+         "Honest and tampered (JWT, disclosures, KB) triples (C02/C03/C04 operators) are rendered in both serialisations (kb_jwt absent / null / string, extra members); the verifier must decide identically and return equal claims, and holders built from both forms must select the same disclosures.",
+         "Only triples expressible in both forms; holder panics on odd input belong to C07.", "DESIGN.md §4 C10"),
+ "C16": ("exploration", "property-based testing (proptest) in a mock_salts build: queue-consumption model, byte identity across runs, C05 + C01 oracles",
+         "Built with the library's mock_salts feature; per case the process-wide salt queue is refilled; checks exact queue consumption and order, byte-identical disclosures / payload / whole string across two runs (decoys off), reconstruction == claims and issue->present->verify == view for claims rich in , : [ \" \\ and space runs.",
+         "Byte equality with Python's json.dumps is not asserted.", "DESIGN.md §4 C16"),
 }
 
 NOT_YET = {
